@@ -90,15 +90,15 @@ scrape_configs:
 // shardFile is the configuration file of a sidecar that runs in file mode (--config.file, pushed configuration is
 // refused): the coordinator's content plus per-shard external labels, as a per-pod rendered file has them.
 // drift makes it differ from the coordinator's in one other setting.
-func shardFile(ord int, drift string) string {
-	txt := strings.Replace(RawConfig, "global:\n", fmt.Sprintf("global:\n  external_labels:\n    replica: shard-%d\n    region: r%d\n", ord, ord%2), 1)
+func shardFile(raw string, ord int, drift string) string {
+	txt := strings.Replace(raw, "global:\n", fmt.Sprintf("global:\n  external_labels:\n    replica: shard-%d\n    region: r%d\n", ord, ord%2), 1)
 	switch drift {
 	case "password":
 		txt = strings.Replace(txt, "S3CR3T-of-the-loop", "S3CR3T-of-last-week", 1)
 	case "regex":
 		txt = strings.Replace(txt, "regex: (.+):80", "regex: (.+):8080", 1)
 	case "interval":
-		txt = strings.Replace(txt, "scrape_interval: 30s", "scrape_interval: 31s", 1)
+		txt = strings.Replace(txt, "scrape_interval: 15s", "scrape_interval: 16s", 1)
 	}
 	return txt
 }
@@ -166,6 +166,16 @@ type Case struct {
 	// target (a kubernetes pod's label set): the assignment of one shard becomes a request body of megabytes
 	Bulk     int `json:"bulk,omitempty"`
 	LabelPad int `json:"labelPad,omitempty"`
+	// J1Interval: scrape interval of job j1 ("" = 30s); the hand-over rule counts scrapes, whatever the interval is
+	J1Interval string `json:"j1Interval,omitempty"`
+}
+
+// raw is the configuration the coordinator distributes in this case.
+func (c *Case) raw() string {
+	if c.J1Interval == "" {
+		return RawConfig
+	}
+	return strings.Replace(RawConfig, "scrape_interval: 30s", "scrape_interval: "+c.J1Interval, 1)
 }
 
 // DriftSpec names the shard that runs another configuration and the setting that differs.
@@ -396,7 +406,7 @@ func (w *World) newSidecar(ordinal int, dir string) *Sidecar {
 			drift = w.Case.Drift.Kind
 		}
 		cfgFile = filepath.Join(w.root, fmt.Sprintf("prometheus-%d.yml", ordinal))
-		_ = ioutil.WriteFile(cfgFile, []byte(shardFile(ordinal, drift)), 0644)
+		_ = ioutil.WriteFile(cfgFile, []byte(shardFile(w.Case.raw(), ordinal, drift)), 0644)
 	}
 	sc.Svc = sidecar.NewService(cfgFile, "http://127.0.0.1:1", func() (int64, error) { return sc.head(), nil },
 		sc.Cfg, sc.TM, prometheus.NewRegistry(), quiet)
@@ -826,7 +836,7 @@ func NewWorld(c *Case) (*World, error) {
 	cm := prom.NewConfigManager()
 	coordFile := filepath.Join(root, "coordinator", "etc", "prometheus.yml")
 	_ = os.MkdirAll(filepath.Dir(coordFile), 0755)
-	if err := ioutil.WriteFile(coordFile, []byte(RawConfig), 0644); err != nil {
+	if err := ioutil.WriteFile(coordFile, []byte(c.raw()), 0644); err != nil {
 		return nil, err
 	}
 	if err := cm.ReloadFromFile(coordFile); err != nil {
@@ -859,7 +869,7 @@ func NewWorld(c *Case) (*World, error) {
 	for i, sc := range w.Shards {
 		// every sidecar of the initial fleet already runs the coordinator's configuration
 		if !c.FileMode {
-			if code, _ := serve(sc.Svc, "POST", "http://x/api/v1/status/config", mustJSON(&shard.UpdateConfigRequest{RawContent: RawConfig})); code != 200 {
+			if code, _ := serve(sc.Svc, "POST", "http://x/api/v1/status/config", mustJSON(&shard.UpdateConfigRequest{RawContent: c.raw()})); code != 200 {
 				return nil, fmt.Errorf("initial config push to shard %d answered %d", i, code)
 			}
 		}
